@@ -89,6 +89,31 @@ Section Arrays.
     intros x Hx. apply Z.eqb_eq. apply H; [exact Hx|now left].
   Qed.
 
+  (** the guard is a statement about ALL blocks, whatever their order: arrays are accepted
+      exactly when every two of them have the same dtype (in particular, not merely when block 0
+      already carries the promoted dtype of the list) *)
+  Theorem constructor_guard_all_blocks b :
+    BlockArray (map IsArr b) = Ok b <-> (forall x y, In x b -> In y b -> a_dtype x = a_dtype y).
+  Proof.
+    split.
+    - intros H x y Hx Hy. apply (homog_dtype b); try assumption. eapply constructor_homogeneous. exact H.
+    - intros H. apply constructor_arrays. now apply homog_intro.
+  Qed.
+
+  (** the guard does not depend on the order of the blocks *)
+  Theorem constructor_guard_order_independent b b' :
+    (forall x, In x b <-> In x b') ->
+    (exists r, BlockArray (map IsArr b) = Ok r) <-> (exists r, BlockArray (map IsArr b') = Ok r).
+  Proof.
+    intros Hp.
+    assert (G : forall c c', (forall x, In x c -> In x c') ->
+                (exists r, BlockArray (map IsArr c') = Ok r) -> exists r, BlockArray (map IsArr c) = Ok r).
+    { intros c c' Hs [r Hr]. exists c. apply constructor_guard_all_blocks. intros x y Hx Hy.
+      unfold BlockArray in Hr. rewrite mapM_IsArr in Hr. destruct (homog c') eqn:E; [|discriminate].
+      apply (homog_dtype c'); auto. }
+    split; apply G; intros x; apply Hp.
+  Qed.
+
   (** a per-block operation whose result dtype is a function of the operand dtype keeps a block
       array homogeneous *)
   Lemma homog_map (f : arr -> arr) b :
@@ -295,6 +320,31 @@ Section Arrays.
     intros Hg Hne. unfold attr_wrapper. rewrite py_iter_id.
     destruct b as [|a r]; [contradiction|]. cbn [map]. now rewrite Hg.
   Qed.
+
+  (** Execution mode.  While a function is traced (jit, grad, vmap, a jitted Operator) the blocks
+      and the per-block attribute values are tracers: arrays all the same ([jnp.ndarray]), but not
+      instances of the concrete array class.  [attr_wrapper_cls cls] is the wrapper with the test
+      "[result[0]] is an array of class [cls]"; the code's test ([jnp.ndarray]) is the class of all
+      arrays, so the result is the same map over the blocks in every mode. *)
+  Definition attr_wrapper_cls (cls : arr -> bool) (get : arr -> obj) (self : list arr) : res (list arr + list obj) :=
+    let result := map get (py_iter self) in
+    match result with
+    | [] => Raise IndexError
+    | IsArr a :: _ => if cls a then match BlockArray result with Ok b => Ok (inl b) | Raise e => Raise e end
+                      else Ok (inr result)
+    | NotArr _ :: _ => Ok (inr result)
+    end.
+
+  Theorem attr_wrapper_all_arrays get b : attr_wrapper_cls (fun _ => true) get b = attr_wrapper get b.
+  Proof. unfold attr_wrapper_cls, attr_wrapper. destruct (map get (py_iter b)) as [|[a|o] r]; reflexivity. Qed.
+
+  (** traced or not ([traced] arbitrary): array-valued property / method => the block array of the
+      per-block values *)
+  Theorem attr_mode_independent (traced : arr -> bool) get (f : arr -> arr) b :
+    (forall x, get x = IsArr (f x)) ->
+    (forall x y, a_dtype x = a_dtype y -> a_dtype (f x) = a_dtype (f y)) ->
+    valid b -> attr_wrapper_cls (fun _ => true) get b = Ok (inl (map f b)).
+  Proof. intros. rewrite attr_wrapper_all_arrays. now apply attr_array_valued. Qed.
 
   (* ---------------------------------------------------------------- *)
   (** * [__setitem__]: [self.arrays[key] = value], no conversion and no dtype check *)
